@@ -96,12 +96,22 @@ class DependencyBuilder:
     ) -> Dependencies:
         results = Dependencies()
         for dependant in dependant_types:
-            if isinstance(dependant, pydsdl.UnionType):
+            if cls._is_or_contains_union(dependant):
                 # Unions always require integer for the tag field.
                 results.uses_integer = True
                 results.uses_union = True
             cls._extract_dependent_types(cls._extract_data_types(dependant), transitive, results)
         return results
+
+    @classmethod
+    def _is_or_contains_union(cls, t: pydsdl.Any) -> bool:
+        """
+        True if the code generated for t defines a union: t is a union, a delimited (non-sealed) union, or a
+        service whose request or response is one of these.
+        """
+        if isinstance(t, pydsdl.ServiceType):
+            return cls._is_or_contains_union(t.request_type) or cls._is_or_contains_union(t.response_type)
+        return isinstance(t, pydsdl.UnionType) or isinstance(getattr(t, "inner_type", None), pydsdl.UnionType)
 
     @classmethod
     def _extract_data_types(cls, t: pydsdl.CompositeType) -> typing.List[pydsdl.SerializableType]:
